@@ -427,7 +427,7 @@ func runSign(seed int64, n int, out *bufio.Writer, thorough bool) *signStats {
 			switch res {
 			case "ok":
 				st.VerifyOK++
-				if kind != "nop" && kind != "nop-end" && kind != "hash" && kind != "identity" && kind != "sig-and-key-other-writer" {
+				if kind != "nop" && kind != "nop-restored" && kind != "nop-end" && kind != "hash" && kind != "identity" && kind != "sig-and-key-other-writer" {
 					st.VerifyOKChanged++
 				}
 			case "panic":
@@ -481,6 +481,16 @@ func runSign(seed int64, n int, out *bufio.Writer, thorough bool) *signStats {
 		}
 		// controls: untouched copy, and fields that are not signed
 		emit("nop", e.Copy(), 0, 0)
+		// tampering IN PLACE: the genuine entry has been verified above; overwrite one payload byte in the
+		// buffer the entry (and every Copy of it) shares, verify the entry object itself, restore
+		if pl := e.GetPayload(); len(pl) > 0 {
+			i := r.Intn(len(pl))
+			pl[i] ^= 0x01
+			emit("payload-inplace", e, 0, 0)
+			emit("payload-inplace-copy", e.Copy(), 0, 0)
+			pl[i] ^= 0x01
+			emit("nop-restored", e, 0, 0)
+		}
 		{
 			m := e.Copy()
 			m.SetHash(randCid(r))
